@@ -79,6 +79,8 @@ func pool() []unit {
 		// (as people wrap long CSP values): the line after it is its own line
 		// a trailing comment that contains a double quote: still only a comment
 		{Dir: "header", ID: "hdr-cmt", Text: "header /docs X-Cmt c1 # fits a 19\" rack"},
+		// the last argument is a placeholder of an environment variable that is not set
+		{Dir: "header", ID: "hdr-env-unset", Text: "header /docs X-Env-Unset {$VERIF_C09_NEVER_SET}"},
 		{Dir: "header", ID: "hdr-wrapped", Text: "header /a.txt X-Wrapped \"part one \\\n\t\tpart two\""},
 
 		{Dir: "errors", ID: "errors-pages", Text: "errors %LOG%/errors.log {\n\t\t404 errs/404.html\n\t\t401 %ROOT%/errs/401.html\n\t}", Single: true},
